@@ -286,6 +286,34 @@ pub fn image_structured(seed: u64, thorough: bool) -> Vec<String> {
     out
 }
 
+pub fn xml_char(c: char) -> bool { matches!(c as u32, 0x9 | 0xA | 0xD | 0x20..=0xD7FF | 0xE000..=0xFFFD | 0x10000..=0x10FFFF) }
+fn q1m(seed: u64) -> QRCode { qr_of(1, seed + 9) }
+/// Image references kept by the coverage-guided fuzzer (fuzz/fuzz_targets/svgimage.rs): each as it is, and - for those with some
+/// structure (a ':' or a ';') - with a double quote and an ampersand inserted after the first ':', before the first ';' and before the last ','.
+pub fn svg_discovered(sink: &mut Sink, seed: u64, corpus: &str) {
+    let mut names: Vec<_> = std::fs::read_dir(corpus).map(|d| d.filter_map(|e| e.ok()).map(|e| e.path()).collect::<Vec<_>>()).unwrap_or_default();
+    names.sort();
+    let qr = q1m(seed);
+    let mut seen = std::collections::HashSet::new();
+    let mut n = 0usize;
+    for p in names {
+        let Ok(data) = std::fs::read(&p) else { continue };
+        let Ok(s) = String::from_utf8(data) else { continue };
+        // characters that no XML 1.0 document can carry (NUL, most C0 controls, U+FFFE/U+FFFF) are outside the property's domain
+        // (references are URLs, data URIs and paths): no claim
+        if !s.chars().all(xml_char) { continue; }
+        let mut variants = vec![s.clone()];
+        let cuts: Vec<usize> = [s.find(':').map(|i| i + 1), s.find(';'), s.rfind(',')].into_iter().flatten().collect();
+        for c in cuts { for sp in ["\"", "&"] { let mut t = s.clone(); t.insert_str(c, sp); variants.push(t); } }
+        for v in variants {
+            if !seen.insert(v.clone()) { continue; }
+            let id = sink.id();
+            sink.emit(&svg_event(id, &format!("svgfound:{}", n % 10), &qr, &[Call::ImageBackgroundShape(n % 3), Call::Image(v)]));
+            n += 1;
+        }
+    }
+}
+
 /// C12: builder programs (all of length <= 2 over an abstract alphabet, longer random ones), all 40 versions x 6 shapes,
 /// the image-string pool x 3 frame shapes.
 pub fn svg(sink: &mut Sink, seed: u64, thorough: bool) {
@@ -352,6 +380,13 @@ pub fn svg(sink: &mut Sink, seed: u64, thorough: bool) {
             let id = sink.id();
             sink.emit(&svg_event(id, &format!("svgimg:{i}"), &qr, &[Call::ImageBackgroundShape(k), Call::Image(s.clone())]));
         }
+    }
+    // four-digit and larger margins: coordinates beyond 999 (every shape on the smallest symbol, two on the largest)
+    for (i, m) in [824usize, 979, 980, 999, 1000, 1001, 1024, 1025, 1100, 2000, 9999, 10000, 65535, 65536, 100000].into_iter().enumerate() {
+        if !thorough && i % 2 == (seed % 2) as usize && m != 1000 { continue; }
+        let id = sink.id();
+        sink.emit(&svg_event(id, &format!("svgmargin4:{m}"), &q1m(seed), &[Call::Margin(m), Call::Shape(i % 6), Call::Shape(0)]));
+        if i % 4 == 0 { let id = sink.id(); sink.emit(&svg_event(id, &format!("svgmargin4:{m}"), &qr_of(40, seed), &[Call::Margin(m)])); }
     }
     // structured image references on the smallest symbol (the whole document is judged each time)
     let q1 = qr_of(1, seed);
@@ -455,13 +490,32 @@ pub fn raster_event(id: u64, tag: &str, qr: &QRCode, prog: &[Call]) -> Value {
             let cells = qr.size + 2 * margin;
             let px = |x: u32, y: u32| -> [u8; 4] { let i = ((y * w + x) * 4) as usize; [data[i], data[i + 1], data[i + 2], data[i + 3]] };
             let scale_int = if w as usize % cells == 0 && w == h { w as usize / cells } else { 0 };
+            let mut win: Option<usize> = None;
             let mut palette: Vec<[u8; 4]> = Vec::new();
             let (mut centre, mut uniform) = (vec![], vec![]);
+            let mut outer: Vec<usize> = Vec::new();
             if w == h && w as usize >= cells {
                 let s = w as f64 / cells as f64;
+                // very large margins: only a window of cells around the symbol is reported cell by cell (win = first cell of the window in
+                // both directions, n + 8 cells wide); for everything outside it the sensor reports which palette entries and whether all cells
+                // are uniform - the quiet zone is one colour, so that loses nothing
+                let windowed = margin > 150;
+                let (w0, w1) = if windowed { (margin - 4, margin + qr.size + 4) } else { (0, cells) };
                 for cy in 0..cells {
                     let (mut rc, mut ru) = (vec![], vec![]);
                     for cx in 0..cells {
+                        if windowed && !(cy >= w0 && cy < w1 && cx >= w0 && cx < w1) {
+                            // sparse probe of the far quiet zone (every 7th cell), full probe of the 16 cells next to the window
+                            let near = cy + 16 >= w0 && cy < w1 + 16 && cx + 16 >= w0 && cx < w1 + 16;
+                            if near || (cx % 7 == 0 && cy % 7 == 0) || cx < 2 || cy < 2 || cx + 2 >= cells || cy + 2 >= cells {
+                                let x = (((cx as f64 + 0.5) * s).floor() as u32).min(w - 1);
+                                let y = (((cy as f64 + 0.5) * s).floor() as u32).min(h - 1);
+                                let c = px(x, y);
+                                let idx = match palette.iter().position(|p| *p == c) { Some(i) => i, None => { if palette.len() < 15 { palette.push(c); palette.len() - 1 } else { 15 } } };
+                                if !outer.contains(&idx) { outer.push(idx); }
+                            }
+                            continue;
+                        }
                         let x = (((cx as f64 + 0.5) * s).floor() as u32).min(w - 1);
                         let y = (((cy as f64 + 0.5) * s).floor() as u32).min(h - 1);
                         let c = px(x, y);
@@ -474,9 +528,11 @@ pub fn raster_event(id: u64, tag: &str, qr: &QRCode, prog: &[Call]) -> Value {
                             ru.push(all as u8);
                         }
                     }
+                    if windowed && !(cy >= w0 && cy < w1) { continue; }
                     centre.push(pack(&rc, 6, 4));
                     if scale_int > 0 { uniform.push(packbits(&ru)); }
                 }
+                if windowed { win = Some(w0); }
             }
             let (mut png, mut pw, mut ph, mut peq) = (0, 0u32, 0u32, 0);
             if let Some(b) = bytes { if let Some((dw, dh, buf)) = decode_png(&b) {
@@ -489,6 +545,7 @@ pub fn raster_event(id: u64, tag: &str, qr: &QRCode, prog: &[Call]) -> Value {
             ev["kind"] = json!("Ok");
             ev["obs"] = json!({"w": w, "h": h, "cells": cells, "scale_int": scale_int, "palette": palette.iter().map(|c| c.to_vec()).collect::<Vec<_>>(),
                                "centre": centre, "uniform": uniform, "png": png, "png_w": pw, "png_h": ph, "png_equal": peq});
+            if let Some(w0) = win { ev["obs"]["win"] = json!(w0); ev["obs"]["outer"] = json!(outer); }
             ev["qr_unchanged"] = json!((before == after) as u8);
         }
     }
@@ -529,6 +586,17 @@ pub fn raster(sink: &mut Sink, seed: u64, thorough: bool) {
         let c = q.size as u32 + 4;
         let id = sink.id();
         sink.emit(&raster_event(id, &format!("rastersyn:{kind}"), &q, &[Call::Margin(2), Call::Shape(if kind < 3 { 0 } else { kind }), Call::FitWidth(5 * c)]));
+    }
+    // four-digit margins (coordinates beyond 999, sides beyond 2000 pixels at original scale)
+    {
+        let q1 = qr_of(1, seed + 5);
+        let ms: &[(usize, u32)] = if thorough { &[(999, 0), (1000, 0), (1023, 0), (1024, 0), (1025, 0), (1100, 0), (1500, 2), (2000, 0), (4096, 0)] } else { &[(1000, 0), (1024, 0), (1025, 0), (1100, 0)] };
+        for &(m, k) in ms {
+            let mut p = vec![Call::Margin(m), Call::Shape(0)];
+            if k > 0 { p.push(Call::FitWidth(k * (q1.size + 2 * m) as u32)); }
+            let id = sink.id();
+            sink.emit(&raster_event(id, &format!("rastermargin:{m}"), &q1, &p));
+        }
     }
     // fit sweep: EVERY requested side from 4 to 8 pixels per cell on two small symbols (any rounding slip of the scale shows at some side),
     // and every integer scale 1..12; width, height and both
